@@ -208,6 +208,66 @@ def div(A, B):
     return MM(tc, A.m, A.n, [conv(a, tc) / conv(b, tc) for a in A.v])
 
 
+def rem(A, B):
+    """A % c, c a number or a 1x1 matrix: the remainder Python's % gives for every element
+    (the sign follows the divisor); real types only"""
+    if isinstance(B, MM):
+        if B.size != (1, 1):
+            raise Refuse('TypeError', 'the second operand of % must be a scalar')
+        b, btc = B.v[0], B.tc
+    else:
+        b, btc = B, tcnum(B)
+    tc = promote(A.tc, btc)
+    if tc == 'z':
+        raise Refuse('TypeError', 'complex modulo')
+    if b == 0:
+        raise Refuse('ZeroDivisionError', 'division by zero')
+    return MM(tc, A.m, A.n, [conv(a, tc) % conv(b, tc) for a in A.v])
+
+
+def powm(A, e):
+    """A ** e elementwise for a number e; the result is at least of type 'd'.  Returns the list of
+    values as Python computes them (inexact: compared with a tolerance by the caller)."""
+    import math
+    tc = promote(promote(A.tc, tcnum(e)), 'd')
+    out = []
+    for a in A.v:
+        if tc == 'd':
+            a, ee = float(a), float(e)
+            if (a == 0.0 and ee < 0.0) or (a < 0.0 and 0.0 < ee < 1.0):
+                raise Refuse('ValueError', 'domain error')
+            out.append(math.pow(a, ee))
+        else:
+            a, ee = complex(a), complex(e)
+            if a == 0 and (ee.imag != 0.0 or ee.real < 0.0):
+                raise Refuse('ValueError', 'domain error')
+            out.append(a ** ee if a != 0 else (None if ee == 0 else 0j))      # 0j ** 0: whatever the C library's cpow says (glibc: nan)
+    return tc, out
+
+
+def efun(name, A):
+    """exp, log, sqrt, cos, sin of a matrix (elementwise) or of a number: (typecode or None, values)"""
+    import math
+    import cmath
+    if isinstance(A, MM):
+        vals, tc = A.v, ('z' if A.tc == 'z' else 'd')
+    else:
+        vals, tc = [A], ('z' if tcnum(A) == 'z' else 'd')
+    if tc == 'd':
+        vals = [float(v) for v in vals]
+        if name == 'log' and any(v <= 0.0 for v in vals):
+            raise Refuse('ValueError', 'domain error')
+        if name == 'sqrt' and any(v < 0.0 for v in vals):
+            raise Refuse('ValueError', 'domain error')
+        out = [getattr(math, name)(v) for v in vals]
+    else:
+        vals = [complex(v) for v in vals]
+        if name == 'log' and any(v == 0 for v in vals):
+            raise Refuse('ValueError', 'domain error')
+        out = [getattr(cmath, name)(v) for v in vals]
+    return tc, out
+
+
 def inplace(A, opn, B):
     """A op= B: allowed exactly when neither type nor size of A would change; modifies A"""
     if opn == '+=':
@@ -224,6 +284,8 @@ def inplace(A, opn, B):
             R = mul(A, B)
     elif opn == '/=':
         R = div(A, B)
+    elif opn == '%=':
+        R = rem(A, B)
     else:
         raise ValueError(opn)
     if R.tc != A.tc or R.size != A.size:
